@@ -51,6 +51,10 @@ def J(parts):
     pathlib semantics for absolute components: idiom (1) of DESIGN §2.2 A2)."""
     flat = []
     for p in parts:
+        if is_const(p) and isinstance(p[1], str) and p[1].startswith("/") and flat:
+            # os.path.join / pathlib: an absolute component discards everything before it
+            flat = [("abspath", p[1])]
+            continue
         if tag(p) == "join":
             if is_rooted(p):
                 flat = list(p[1])
@@ -158,7 +162,7 @@ _TAGS = {
     "listof", "elem", "listdir", "listed", "inst", "selfattr", "callres", "exc", "unknown",
     "probe", "strop", "opt", "int", "self", "hashof", "dictzip", "cmp", "not", "and", "or",
     "stem", "suffix", "bool", "setof", "readlines", "hexdigests", "hashobjs", "module",
-    "class", "func", "walk", "iattr", "hexdigest", "closing", "obj", "line", "slice", "arith",
+    "class", "func", "walk", "abspath", "iattr", "hexdigest", "closing", "obj", "line", "slice", "arith",
 }
 
 
@@ -350,6 +354,8 @@ def classify(t):
             # un-sharded thing directly below an entity directory: the "relative path"
             # convenience fall-back of the two look-up helpers
             return PathClass("FALLBACK", C(ent), J(list(tail)))
+        if tag(head) == "abspath":
+            return PathClass("OUTSIDE", C(head[1]))
         if tag(head) in ("tmpname",):
             return PathClass("UNKNOWN")
         # relative join
@@ -370,6 +376,8 @@ def classify(t):
     if tg == "parent":
         base = classify(t[1])
         return PathClass("PARENTDIR", base)
+    if tg == "abspath":
+        return PathClass("OUTSIDE", C(t[1]))
     if tg == "param":
         return PathClass("EXTERNAL", t)
     if tg == "opt":
